@@ -33,6 +33,9 @@ pub struct Transaction<SP: StorageProvider, PS> {
     perspective: Option<SP::Perspective>,
     /// Head of the current perspective
     phead: Option<CmdId>,
+    /// Parents of the current perspective. They stay in `heads`, and so stay
+    /// locatable, until the perspective is written out.
+    pparents: Prior<CmdId>,
     /// Written but not committed heads
     heads: BTreeMap<CmdId, Location>,
     /// Tag for associated policy store
@@ -46,6 +49,7 @@ impl<SP: StorageProvider, PS> Transaction<SP, PS> {
             original_heads_offset: None,
             perspective: None,
             phead: None,
+            pparents: Prior::None,
             heads: BTreeMap::new(),
             policy_store: PhantomData,
         }
@@ -87,12 +91,35 @@ impl<SP: StorageProvider, PS: PolicyStore> Transaction<SP, PS> {
     /// [`Self::session_heads`] reflect every accumulated command before
     /// committing (e.g. to advertise the frontier while syncing).
     pub fn flush(&mut self, storage: &mut SP::Storage) -> Result<(), ClientError> {
-        if let Some(p) = Option::take(&mut self.perspective) {
-            self.phead = None;
-            let segment = storage.write(p)?;
-            self.heads
-                .insert(segment.head_id(), segment.head_location()?);
+        self.write_perspective(storage)
+    }
+
+    /// Write the in-flight perspective, if any, into a segment. The segment's
+    /// head becomes a tip of the transaction in place of the perspective's
+    /// parents, which the new segment covers.
+    ///
+    /// The parents are only dropped from `self.heads` here, not when the
+    /// perspective is created: `locate` does not search the perspective, so
+    /// until it is written its parents are the only way to reach their
+    /// ancestry, and if nothing is written they must remain tips.
+    fn write_perspective(&mut self, storage: &mut SP::Storage) -> Result<(), ClientError> {
+        let Some(p) = Option::take(&mut self.perspective) else {
+            return Ok(());
+        };
+        let parents = mem::replace(&mut self.pparents, Prior::None);
+        let phead = Option::take(&mut self.phead);
+        if let Prior::Single(parent) = parents
+            && phead == Some(parent)
+        {
+            // Every command offered to this perspective was rejected: there
+            // is nothing to write and the parent is still a tip.
+            return Ok(());
         }
+        let seg = storage.write(p)?;
+        for parent in parents {
+            self.heads.remove(&parent);
+        }
+        self.heads.insert(seg.head_id(), seg.head_location()?);
         Ok(())
     }
 
@@ -318,11 +345,7 @@ impl<SP: StorageProvider, PS: PolicyStore> Transaction<SP, PS> {
         MS: Fn() -> Result<F, StorageError>,
     {
         // Must always start a new perspective for merges.
-        if let Some(p) = Option::take(&mut self.perspective) {
-            self.phead = None;
-            let seg = storage.write(p)?;
-            self.heads.insert(seg.head_id(), seg.head_location()?);
-        }
+        self.write_perspective(storage)?;
 
         let left_loc = self
             .locate(storage, left, &mut buffers.traversal.primary)?
@@ -353,12 +376,11 @@ impl<SP: StorageProvider, PS: PolicyStore> Transaction<SP, PS> {
         )?;
         perspective.add_command(command)?;
 
-        // These are no longer heads of the transaction, since they are both covered by the merge
-        self.heads.remove(&left.id);
-        self.heads.remove(&right.id);
-
+        // Both parents are covered by the merge; they stop being heads of the
+        // transaction once the merge is written out.
         self.perspective = Some(perspective);
         self.phead = Some(command.id());
+        self.pparents = Prior::Merge(left.id, right.id);
 
         Ok(true)
     }
@@ -382,11 +404,7 @@ impl<SP: StorageProvider, PS: PolicyStore> Transaction<SP, PS> {
         }
 
         // Write out the current perspective.
-        if let Some(p) = Option::take(&mut self.perspective) {
-            self.phead = None;
-            let seg = storage.write(p)?;
-            self.heads.insert(seg.head_id(), seg.head_location()?);
-        }
+        self.write_perspective(storage)?;
 
         let loc = self
             .locate(storage, parent, buffer)?
@@ -398,7 +416,7 @@ impl<SP: StorageProvider, PS: PolicyStore> Transaction<SP, PS> {
             .insert(storage.get_linear_perspective(loc)?);
 
         self.phead = Some(parent.id);
-        self.heads.remove(&parent.id);
+        self.pparents = Prior::Single(parent.id);
 
         Ok(p)
     }
